@@ -5,6 +5,7 @@ rows=[]
 equiv=[]
 for d in sorted(glob.glob('seeded/*/')):
     sid=os.path.basename(d.rstrip('/'))
+    if sid.startswith('_'): continue
     meta=json.load(open(d+'meta.json')) if os.path.exists(d+'meta.json') else {}
     what=''
     notes=open(d+'notes.md').read() if os.path.exists(d+'notes.md') else ''
@@ -30,7 +31,7 @@ for d in sorted(glob.glob('seeded/*/')):
         continue
     rows.append((sid, what, '; '.join(caught) or '—', ', '.join(missed) or '—'))
 out=["## 16. Seeded changes: which checks catch which\n",
-"Each change below came from an independent sub-agent that saw only the property text (from the third wave on also a list of the earlier changes, to stay different) and its own\nscratch worktree; it compiles, passes the 342-test baseline, and has a demonstration that fails with it and\npasses without (all three re-run by `/tmp/mut/confirm.sh`, results in `seeded/<id>/meta.json`). Four waves: a/b (first two), c/d (subtler, properties C03-C05, C09-C12), e/f (subtler, the other properties);\nC11-e is the revert of repair b825c8a. Detection = the listed check at the quick tier and default seed on a scratch worktree of /repo with the patch applied plus an identical copy of `/verif/sim`\n(`seed_matrix_scratch.sh`; the first waves ran on /repo itself with `seed_matrix.sh`: apply, check, undo). A change that is listed as missed by one check and caught by another was caught by the neighbouring property's check.\n",
+"Each change below came from an independent sub-agent that saw only the property text (from the third wave on also a list of the earlier changes, to stay different) and its own\nscratch worktree; it compiles, passes the 342-test baseline, and has a demonstration that fails with it and\npasses without (all three re-run by `seeded/_tools/confirm.sh` (run from /tmp/mut at the time), results in `seeded/<id>/meta.json`). Four waves: a/b (first two), c/d (subtler, properties C03-C05, C09-C12), e/f (subtler, the other properties);\nC11-e is the revert of repair b825c8a. Detection = the listed check at the quick tier and default seed on a scratch worktree of /repo with the patch applied plus an identical copy of `/verif/sim`\n(`seed_matrix_scratch.sh`; the first waves ran on /repo itself with `seed_matrix.sh`: apply, check, undo). A change that is listed as missed by one check and caught by another was caught by the neighbouring property's check.\n",
 "| id | change (first line of the sub-agent's notes) | caught by (class) | missed by |","|---|---|---|---|"]
 for r in rows:
     out.append("| %s | %s | %s | %s |" % tuple(x.replace('|','/') for x in r))
